@@ -12,6 +12,7 @@
   them on the real code.
 -/
 import SSEPyVerif.Props.C01
+import SSEPyVerif.Proofs.Schemes.ChainComplete
 import SSEPyVerif.Model.Schemes.Wire
 import SSEPyVerif.Model.Schemes.SSE2
 namespace SSEPy.C08
@@ -131,5 +132,29 @@ theorem PiBas.refused_or_correct (raw : RawCfg) (lv : Leaves) (hl : LeafLaws lv)
     | ok r =>
       obtain ⟨D, t'⟩ := r
       exact Or.inr ⟨D, t', rfl, fun hnc => C01.PiBas.search_stored raw cfg hc lv hl K db t t' D hs hnc w ids hm⟩
+
+/-- PiBas, the accepted configurations split in two with nothing in between: `prf_f_output_length = param_lambda` gives a
+    scheme that sets up and searches correctly (`C01.PiBas.correct`); any other output length makes `EDBSetup` raise as soon
+    as the database has a posting — loudly, never an index that answers wrongly -/
+theorem PiBas.mismatch_is_loud (raw : RawCfg) (cfg : ChainCfg) (hcfg : PiBas.cfgBuild raw = .ok cfg) (lv : Leaves)
+    (hl : LeafLaws lv) (lam out : Int) (hlam : getInt raw "param_lambda" = .ok lam)
+    (hout : getInt raw "prf_f_output_length" = .ok out) (hne : out ≠ lam) (K : Bytes) (db : DB) (t : Tape)
+    (hdb : ∃ p ∈ db, p.2 ≠ []) : ∃ e, Chain.setup cfg lv K db t = .error e := by
+  obtain ⟨lam', out', ske, _, hlam', ho', hske, hc⟩ := PiBas.cfgBuild_ok raw cfg hcfg
+  rw [hlam] at hlam'; cases hlam'
+  rw [hout] at ho'; cases ho'
+  have hk := new_keyLength lam ske hske
+  subst hc
+  apply Chain.setup_loud _ lv hl K db t rfl rfl
+  · simp only [HmacPRF.new, LENGTH_UNLIMITED]; omega
+  · simp only [HmacPRF.new]
+    by_cases h0 : out = 0
+    · subst h0
+      simp [LENGTH_NOT_GIVEN]; omega
+    · have : (out == LENGTH_NOT_GIVEN) = false := by simpa [LENGTH_NOT_GIVEN] using h0
+      simp only [this, Bool.false_eq_true, if_false]
+      omega
+  · obtain ⟨p, hp, hpne⟩ := hdb
+    exact ⟨p, hp, fun chs hch => by cases hch; exact hpne⟩
 
 end SSEPy.C08
